@@ -310,7 +310,7 @@ pub fn run(args: &Args) {
     crate::drive_parallel(
         &report,
         "format",
-        args.tier.pick(3_000, 150_000),
+        args.tier.pick(4_000, 150_000),
         || {
             let p = params.clone();
             let lit = gen_iso::printed(&p).prop_map(|(l, _, pr)| (l.has_arguments() || l.has_directives() || l.has_nested_selections(), pr));
